@@ -149,6 +149,9 @@ func c6Eval(n *c6Node, row Row) c6V {
 		return c6Unpinned
 	case c6Arith:
 		a, b := c6Eval(n.Args[0], row), c6Eval(n.Args[1], row)
+		if a.k != '?' && b.k != '?' && (a.k == '0' || b.k == '0') {
+			return c6Null // a NULL or missing operand makes the result NULL, whatever the other operand is
+		}
 		if a.k == '?' || b.k == '?' || (a.k != 'n' && a.k != '0') || (b.k != 'n' && b.k != '0') {
 			return c6Unpinned // text / bool operand: meaning left open by the statement
 		}
